@@ -282,10 +282,12 @@ def container_cases(d: tuple) -> Iterator[tuple[str, str]]:
     good = Quantity(3 * unit_expr(d))
     bad = Quantity(3 * unit_expr(wrongv))
     zero = Quantity(0 * unit_expr(wrongv) if False else 0, dimension=dim_expr(wrongv))
-    menu = {"g": (good, OK), "b": (bad, verdict(d, wrongv)), "z": (zero, OK)}
+    # "0" / "f": bare Python zeros as elements (any dimension, but they still occupy a position)
+    menu = {"g": (good, OK), "b": (bad, verdict(d, wrongv)), "z": (zero, OK), "0": (0, OK),
+        "f": (0.0, OK)}
     tag = f"{vec(d)}<-seq"
     for n in ((1, 2, 3, 4) if _THOROUGH else (1, 2, 3)):
-        for combo in itertools.product("gbz", repeat=n):
+        for combo in itertools.product("gbz0f" if _THOROUGH or n < 3 else "gbz0", repeat=n):
             vals = [menu[c][0] for c in combo]
             want = OK
             idx = None
@@ -305,6 +307,24 @@ def container_cases(d: tuple) -> Iterator[tuple[str, str]]:
     yield f"{tag}|decltuple-mixed-ok", expect(OK, got)
     got = call_input((D, dim_expr(wrongv)), [bad, good])
     yield f"{tag}|decltuple-mixed-swapped", expect(verdict(d, wrongv), got, must_name="param_[0]")
+    # every per-position declaration over {d, wrong} against every element sequence: position i
+    # is judged against declaration i, whatever stands before it (bare zeros included)
+    W = dim_expr(wrongv)
+    actual = {"g": d, "b": wrongv}
+    for n in ((2, 3) if _THOROUGH else (2,)):
+        for decl in itertools.product("dw", repeat=n):
+            for combo in itertools.product("gbz0f", repeat=n):
+                want, idx = OK, None
+                for i, (dc, c) in enumerate(zip(decl, combo)):
+                    if c in actual:
+                        v = verdict(d if dc == "d" else wrongv, actual[c])
+                        if v != OK:
+                            want, idx = v, i
+                            break
+                got = call_input(tuple(D if dc == "d" else W for dc in decl), [menu[c][0] for c in
+                    combo])
+                yield f"{tag}|declmix:{''.join(decl)}:{''.join(combo)}", expect(want, got,
+                    must_name=f"param_[{idx}]" if idx is not None else None)
     yield f"{tag}|empty", expect(OK, call_input(D, []))
 
 
